@@ -67,8 +67,15 @@ type c18Params struct {
 }
 
 // prepare the start state of a fresh world.
+func c18Cfg(start string) world.Config {
+	if start == "debugdir" {
+		return cfgDebugDir
+	}
+	return cfgDefault
+}
+
 func c18Start(e *Env, start string) (*world.World, error) {
-	tmpl, err := e.Template(cfgDefault)
+	tmpl, err := e.Template(c18Cfg(start))
 	if err != nil {
 		return nil, err
 	}
@@ -81,7 +88,7 @@ func c18Start(e *Env, start string) (*world.World, error) {
 		return nil, err
 	}
 	switch start {
-	case "template":
+	case "template", "debugdir":
 	case "tool-empty":
 		os.RemoveAll(filepath.Join(w.GarbleCache, "tool"))
 	case "link-missing":
@@ -307,6 +314,19 @@ func (c c18) Generate(e *Env) ([]*Case, error) {
 	for _, k := range trim {
 		add(c18Params{Prog: prog, Start: "aged", Crashes: []c18Crash{crashAt(r3, k, "kill", "")}})
 	}
+	// --- -debugdir builds (full -a rebuilds of several thousand events): the debug
+	// dir is durable state too. Crash after it has begun to fill; the rerun runs
+	// outside the gate.
+	ddPoints := []int{150, 900}
+	if thorough {
+		ddPoints = []int{40, 150, 400, 900, 1800, 3000, 4500}
+		for i := 0; i < 5; i++ {
+			ddPoints = append(ddPoints, 30+rng.Intn(5000))
+		}
+	}
+	for _, k := range ddPoints {
+		add(c18Params{Prog: prog, Start: "debugdir", Crashes: []c18Crash{{Step: k, Kind: "kill"}}})
+	}
 	e.SetExtra("exhaustive", thorough)
 	e.SetExtra("exhaustive_note", "thorough: every gated event index of the canonical template-start build, every index of the link process when the linker must be built, every index of the trim window of an aged cache; schedules, repeated crashes and GOCACHE loss are sampled")
 	e.SetExtra("canonical_build_events", n)
@@ -355,7 +375,7 @@ func (c c18) Run(e *Env, cs *Case) (*Outcome, error) {
 	realKills := 0
 	for ci, cr := range p.Crashes {
 		label := fmt.Sprintf("crash%d", ci)
-		cl := w.Client("A", src, cfgDefault, "build", fmt.Sprintf("-p=%d", p.P), "-o", out, ".")
+		cl := w.Client("A", src, c18Cfg(p.Start), "build", fmt.Sprintf("-p=%d", p.P), "-o", out, ".")
 		act := engine.Action{Kind: "kill"}
 		var tornSize int64
 		pol := &engine.WithFaults{Sched: p.Sched.Policy(), AtStep: map[int]engine.Action{}}
@@ -460,10 +480,19 @@ func (c c18) Run(e *Env, cs *Case) (*Outcome, error) {
 		o.Probes["leftover-shared-dir-after-kill"]++
 	}
 	// Rerun, fault-free.
-	cl := w.Client("A", src, cfgDefault, "build", "-p=1", "-o", out, ".")
-	s, err := runSim(w, []*engine.Client{cl}, engine.Canonical{}, true, nil, nil)
-	if err != nil {
-		return nil, err
+	cl := w.Client("A", src, c18Cfg(p.Start), "build", "-p=1", "-o", out, ".")
+	var s *engine.Sim
+	if p.Start == "debugdir" {
+		// Every -debugdir build is a full -a rebuild: the rerun runs outside the gate.
+		_, se, code := w.RunPlain(src, c18Cfg(p.Start), "build", "-o", out, ".")
+		cl.ExitCode = code
+		cl.Stderr.WriteString(se)
+		s = &engine.Sim{}
+	} else {
+		s, err = runSim(w, []*engine.Client{cl}, engine.Canonical{}, true, nil, nil)
+		if err != nil {
+			return nil, err
+		}
 	}
 	o.SimRuns++
 	o.Steps += len(s.Steps)
@@ -482,12 +511,17 @@ func (c c18) Run(e *Env, cs *Case) (*Outcome, error) {
 	if cl.ExitCode != 0 {
 		return viol("rerun-failed", fmt.Sprintf("rerun after %s exited %d:\n%s", key, cl.ExitCode, shortErr(cl.Stderr.String()))), nil
 	}
-	ref, err := e.Reference(RefSpec{Prog: p.Prog, Cfg: cfgDefault})
+	ref, err := e.Reference(RefSpec{Prog: p.Prog, Cfg: c18Cfg(p.Start), DebugDir: p.Start == "debugdir"})
 	if err != nil {
 		return nil, err
 	}
 	if got := world.HashFile(out); got != ref.Sha {
 		return viol("binary-differs", fmt.Sprintf("binary of the rerun after %s is %s, uninterrupted reference is %s", key, got[:16], ref.Sha[:16])), nil
+	}
+	if p.Start == "debugdir" {
+		if sum, n := DebugDirSum(filepath.Join(w.Out, "debugdir")); sum != ref.DebugSum {
+			return viol("debugdir-differs", fmt.Sprintf("-debugdir tree of the rerun has %d files and differs from the uninterrupted reference (%d files)", n, ref.DebugN)), nil
+		}
 	}
 	plain, err := e.Plain(p.Prog, nil, nil, "")
 	if err != nil {
